@@ -364,6 +364,38 @@ def extras(ctx, n):
                      expected="an index", tags={"function": "flip_flop_index", "variant": "relayout"})
 
 
+        # --- directional data: encompassing_sector_size called directly with the preserved dims named in ANY order, on any
+        #     storage order; angular flip_flop_index under relayout.  Values are compared by label.
+        from scores.continuous.flip_flop_impl import encompassing_sector_size
+        import itertools as _it
+        ang = arr(["a", "samp", "b"], sizes, [0.0, 10.0, 350.0, 90.0, 180.0, 270.0, 45.0, 200.0])
+        desc = {"function": "encompassing_sector_size", "data": core.canon(ang.values.tolist()), "dims": list(ang.dims)}
+        try:
+            ref = encompassing_sector_size(ang, [d for d in ang.dims if d != "samp"])
+            d1, s1, v1 = R.to_labelled(ref)
+            for src in (ang, relay(ang)):
+                for order in _it.permutations(["a", "b"]):
+                    ctx.case("extras", dict(desc, stored=list(src.dims), dims_arg=list(order)))
+                    ctx.tag("variant:sector-dims-order")
+                    got = encompassing_sector_size(src, [R.fresh(d) for d in order])
+                    d2, s2, v2 = R.to_labelled(got)
+                    if d1 != d2 or s1 != s2 or not all(core.close_ff(p, q) for p, q in zip(v1, v2)):
+                        ctx.fail("extras", "property", "encompassing_sector_size", "value-depends-on-layout",
+                                 dict(desc, stored=list(src.dims), dims_arg=list(order)), observed=v2, expected=v1,
+                                 tags={"function": "encompassing_sector_size", "variant": "dims-order"})
+            base = flip_flop_index(ang, "samp", is_angular=True)
+            var = flip_flop_index(relay(ang), "samp", is_angular=True)
+            d1, s1, v1 = R.to_labelled(base)
+            d2, s2, v2 = R.to_labelled(var)
+            ctx.case("extras", dict(desc, function="flip_flop_index(is_angular)"))
+            if d1 != d2 or s1 != s2 or not all(core.close_ff(p, q) for p, q in zip(v1, v2)):
+                ctx.fail("extras", "property", "flip_flop_index", "value-depends-on-layout", dict(desc, is_angular=True), observed=v2, expected=v1,
+                         tags={"function": "flip_flop_index", "variant": "relayout-angular"})
+        except Exception as ex:
+            ctx.fail("extras", "property", "encompassing_sector_size", "exception:" + core.exc_class(ex), desc, observed=str(ex)[:200],
+                     expected="sector sizes", tags={"function": "encompassing_sector_size", "variant": "dims-order"})
+
+
 def correspondence(ctx):
     """layout tie of the model: Lean scoreEval on a pointwise array handed over in a PERMUTED dimension order
     equals the implementation's aggregate (Arr.get is by name, not by position)"""
@@ -418,7 +450,7 @@ def oracle(ctx, boost):
 def replay(ctx, payload):
     c = core.Ctx("C04", "quick", payload.get("seed", 0))
     site = payload.get("site", "")
-    if site in ("isotonic_fit", "cdf_envelope", "flip_flop_index"):
+    if site in ("isotonic_fit", "cdf_envelope", "flip_flop_index", "encompassing_sector_size"):
         extras(c, 60)
         return any(f["site"] == site for f in c.failures)
     if site.startswith("pandas."):
